@@ -30,6 +30,58 @@ func runC06(c *fw.Ctx) {
 	r61(c)
 	r62(c)
 	r64(c)
+	r65(c)
+}
+
+// R6.5: applicability of a candidate is decided on all arguments: the check loops of the functions that
+// receive the candidate's argument list cover every element.
+func r65(c *fw.Ctx) {
+	checkLoopsIn(c, "R6.5", argListReceivers(c))
+}
+
+// argListReceivers: matchFuncCall and, transitively, the functions of the root package it calls statically
+// that take an operand list ([]*Elem) - the functions that see a candidate's arguments.
+func argListReceivers(c *fw.Ctx) map[*types.Func]bool {
+	p := c.Pkg("")
+	info := p.TypesInfo
+	set := map[*types.Func]bool{}
+	root := c.LookupFunc("matchFuncCall")
+	if root == nil {
+		return set
+	}
+	work := []*types.Func{root}
+	set[root] = true
+	for len(work) > 0 {
+		fn := work[len(work)-1]
+		work = work[:len(work)-1]
+		fd := c.DeclOf(fn)
+		if fd == nil || fd.Body == nil {
+			continue
+		}
+		ast.Inspect(fd.Body, func(n ast.Node) bool {
+			call, ok := n.(*ast.CallExpr)
+			if !ok {
+				return true
+			}
+			cal, _ := callee(info, call).(*types.Func)
+			if cal == nil || cal.Pkg() != p.Types || set[cal] {
+				return true
+			}
+			sig := cal.Type().(*types.Signature)
+			takes := false
+			for i := 0; i < sig.Params().Len(); i++ {
+				if isElemSlice(sig.Params().At(i).Type()) {
+					takes = true
+				}
+			}
+			if takes && sig.Recv() == nil {
+				set[cal] = true
+				work = append(work, cal)
+			}
+			return true
+		})
+	}
+	return set
 }
 
 func containsCall(info *types.Info, n ast.Node, pkg, name string) *ast.CallExpr {
@@ -292,6 +344,72 @@ func r62(c *fw.Ctx) {
 			}
 			return true
 		})
+	}
+	// the restore is unconditional: every argument gets every saved field back on every call. A guard is
+	// tolerated only when it is a disjunction of `arg.f != backup.f` tests naming every field restored under
+	// it (then a skipped restore would have been a no-op)
+	if fd, _ := needDecl(c, rule, "restoreArgs"); fd != nil {
+		var stack []ast.Node
+		ok := true
+		why := ""
+		ast.Inspect(fd.Body, func(n ast.Node) bool {
+			if n == nil {
+				stack = stack[:len(stack)-1]
+				return true
+			}
+			stack = append(stack, n)
+			as, isAs := n.(*ast.AssignStmt)
+			if !isAs {
+				return true
+			}
+			fields := map[string]bool{}
+			for _, l := range as.Lhs {
+				if sel, isSel := unparen(l).(*ast.SelectorExpr); isSel && isElemPtr(info.TypeOf(sel.X)) {
+					fields[sel.Sel.Name] = true
+				}
+			}
+			if len(fields) == 0 {
+				return true
+			}
+			for i := len(stack) - 2; i >= 0; i-- {
+				switch g := stack[i].(type) {
+				case *ast.IfStmt:
+					tested := map[string]bool{}
+					pure := true
+					var split func(e ast.Expr)
+					split = func(e ast.Expr) {
+						e = unparen(e)
+						if be, isBin := e.(*ast.BinaryExpr); isBin {
+							if be.Op == token.LOR {
+								split(be.X)
+								split(be.Y)
+								return
+							}
+							if be.Op == token.NEQ {
+								if sel, isSel := unparen(be.X).(*ast.SelectorExpr); isSel && isElemPtr(info.TypeOf(sel.X)) {
+									tested[sel.Sel.Name] = true
+									return
+								}
+							}
+						}
+						pure = false
+					}
+					split(g.Cond)
+					inThen := g.Body.Pos() <= as.Pos() && as.End() <= g.Body.End()
+					for f := range fields {
+						if !pure || !tested[f] || !inThen {
+							ok = false
+							why = sprintf("the restore of %s is guarded by `%s`", f, exprString(g.Cond))
+						}
+					}
+				case *ast.SwitchStmt, *ast.TypeSwitchStmt, *ast.SelectStmt:
+					ok = false
+					why = "the restore sits inside a switch"
+				}
+			}
+			return true
+		})
+		c.Check(ok, rule, "restore/unconditional", fd.Pos(), "restoreArgs must give every argument its saved fields back unconditionally: %s — a conversion that rewrites a field the guard does not test survives into the next candidate", why)
 	}
 	c.Check(len(saved) > 0 && join(sortedKeys(saved)) == join(sortedKeys(restored)), rule, "backup/saved-equals-restored", token.NoPos,
 		"backupArgs saves {%s}, restoreArgs restores {%s}", join(sortedKeys(saved)), join(sortedKeys(restored)))
